@@ -122,11 +122,18 @@ KF_C02(c) ==
           /\ ModelAgrees(c, run)
   THEN "emoji-presentation-sequence" ELSE ""
 
+\* the same defect seen through C11's bound on the lines of an overflowing rendering.  Class: everything C11 asks
+\* holds, by character widths every line is within the bound, and only lines that hold U+FE0F exceed it as
+\* strings (the symptom is specific enough; the model is not consulted: C11's documents include list starts
+\* beyond TLC's integers)
+KF_C11(c) == IF P_C11x(c, FALSE) THEN "emoji-presentation-sequence" ELSE ""
+
 KFClass(prop, c) ==
   CASE prop = "C12" -> KF_C12(c)
     [] prop = "C18" -> KF_C18(c)
     [] prop = "C03" -> KF_C03(c)
     [] prop = "C02" -> KF_C02(c)
+    [] prop = "C11" -> KF_C11(c)
     [] prop \in {"C05", "C06"} -> KF_Table(c)
     [] prop = "C08" -> KF_C08(c)
     [] prop = "C15" -> KF_C15(c)
